@@ -73,6 +73,22 @@ def obligations(ctx, tier):
                             return ("errv",)
                         return ("okv", PI(ty, v))
                     out += core.g_row(K, PROP, fid, arith.reps(A, "T", ex2))
+            # ---- From<bool> and From<unsigned primitive>: the same numeric value whenever the target can hold it
+            out += core.g_row(K, PROP, tr(A, "core::convert::From", ["bool"], "from"),
+                              [(n, (lambda v=v: lambda W: {0: v})(), (lambda A=A: lambda W, env: ("val", W.wrap(A, int(env[0]))))()) for n, v in (("f", False), ("t", True))])
+            for ty in UPRIMS:
+                fid = tr(A, "core::convert::From", [ty], "from")
+                if F.lookup(fid) is None:
+                    continue
+
+                def exfrom(W, env, A=A):
+                    v = env[0].v
+                    lo_, hi_ = arith.rng(W, A)
+                    return ("val", W.wrap(A, v)) if lo_ <= v <= hi_ else ("any",)      # README limitation: wider / same-width-unsigned sources
+                b_ = {"u8": 8, "u16": 16, "u32": 32, "u64": 64, "u128": 128, "usize": 64}[ty]
+                extra = [("x%d" % k, v) for k, v in enumerate([200, 255, 256, 1000, 65535, 65536, 1 << 31, (1 << 32) - 1, 1 << 32, 1 << 40, (1 << 63) - 1,
+                                                                1 << 63, (1 << 64) - 1, 1 << 64, 1 << 100, (1 << 128) - 1]) if v < (1 << b_)]
+                out += core.g_row(K, PROP, fid, [(n, (lambda v=v, ty=ty: lambda W: {0: PI(ty, v)})(), exfrom) for n, v in c09.prim_reps(ty) + extra])
             # ---- TryFrom<bnum> for every primitive: whatever is decided before the digit loop (the single-digit fast path
             #      when the digit is wider than the target) must be Ok exactly for representable values
             out += to_prim_rows(K, A)
